@@ -434,8 +434,10 @@ class REPEX_state:
         """Set numpy random generator state from restart."""
         seed_sequence = np.random.SeedSequence(
             entropy=self.config["simulation"]["seed"],
-            n_children_spawned=self.cstep
-            + len(self.config["current"].get("locked", [])),
+            n_children_spawned=self.config["current"].get(
+                "spawned",
+                self.cstep + len(self.config["current"].get("locked", [])),
+            ),
         )
         self.rgen = default_rng(seed_sequence)
         self.rgen.bit_generator.state = self.config["current"]["rng_state"]
@@ -781,6 +783,15 @@ class REPEX_state:
             )
         self.config["current"]["locked"] = locked_ep
         self.config["current"]["rng_state"] = self.rgen.bit_generator.state
+        # the number of job streams handed out so far is cstep + the jobs
+        # in flight, unless a restart could not re-issue all recorded jobs
+        # (fewer workers or steps left than records): then it is stored,
+        # so that no later job gets the stream of an earlier one.
+        spawned = self.rgen.bit_generator._seed_seq.n_children_spawned
+        if spawned != self.cstep + len(locked_ep):
+            self.config["current"]["spawned"] = int(spawned)
+        else:
+            self.config["current"].pop("spawned", None)
 
         # save accumulative fracs
         self.config["current"]["frac"] = {}
